@@ -408,3 +408,123 @@ pub fn c12(a: &Args) {
     for e in evs { out.emit(&e); }
     println!("{}", json!({"events": out.finish()}));
 }
+
+// ------------------------------------------------------------------ C14
+
+/// Property-level identity of a lint for ignoring purposes: kind/message/suggestions, the
+/// flagged text, and the tokens within two characters before and after it.
+fn pid(l: &Lint, doc: &Document, loose: bool) -> String {
+    let src = doc.get_source();
+    let s = l.span.start.min(src.len());
+    let e = l.span.end.min(src.len());
+    let flagged: String = src[s..e].iter().collect();
+    let tok_texts = |a: usize, b: usize| -> Vec<String> {
+        if a >= b { return vec![]; }
+        doc.get_tokens().iter().filter(|t| t.span.start < b && a < t.span.end && t.span.end > t.span.start)
+            // loose identity: only "words" (anything that is not white space or a structural break)
+            .filter(|t| !loose || !(t.kind.is_whitespace() || matches!(t.kind, harper_core::TokenKind::ParagraphBreak)))
+            .map(|t| src[t.span.start..t.span.end.min(src.len())].iter().collect::<String>()).collect()
+    };
+    let before = tok_texts(s.saturating_sub(2), s);
+    let after = tok_texts(e, (e + 2).min(src.len()));
+    digest(&format!("{:?}|{:?}|{}|{}|{}|{:?}|{:?}", l.lint_kind, l.suggestions, l.message, l.priority, flagged, before, after))
+}
+
+fn lint_entry(l: &Lint, doc: &Document) -> Value {
+    json!({"id": lint_digest(l), "pid": pid(l, doc, false), "lpid": pid(l, doc, true), "s": l.span.start, "e": l.span.end})
+}
+
+pub fn c14(a: &Args) {
+    use harper_core::IgnoredLints;
+    let mut out = Out::create(a.req("out"));
+    let mut rng = Rng::new(a.num("seed", 1));
+    let corpus = read_corpus(a.req("corpus"));
+    let special = ["teh teh", "teh teh teh cat.", "He said \"an test\" today.", "\"teh\" is wrong and \"teh\" again.", "(teh) and [teh]",
+        "an apple and an test and an orange.", "teh cat. teh dog.", "The the cat saw teh dog, teh cat and teh bird.",
+        "\"teh", "a teh", "I has an test. You has an test.", "this sentence. this sentence.", "Very long mispelled wordd here and mispelled wordd there."];
+    let far_pre = ["Some intro words here.\n\n", "\"Quoted\" intro words.\n\n", "An earlier paragraph with teh typo.\n\n", "Ünïcödé 😀 first.\n\n"];
+    let far_post = ["\n\nMore words follow here.", "\n\nA \"quoted\" closing remark.", "\n\nAnother teh typo later."];
+    let nsess = a.num("sessions", 300) as usize;
+    let mut sessions: Vec<(String, u64)> = Vec::new();
+    for s in special { for k in 0..4 { sessions.push((s.to_string(), k)); } }
+    for i in 0..nsess {
+        let t = if i % 3 == 0 { crate::inputs::compose(&corpus, &mut rng) } else { rng.pick(&corpus[..]).clone() };
+        sessions.push((t, rng.next()));
+    }
+    let evs = par_map(sessions.len(), a.num("threads", 12) as usize, |_| front::all_rules_group(Dialect::American), |lg, i| {
+        let (text, s) = &sessions[i];
+        let mut r = Rng::new(*s);
+        let mut evs = vec![json!({"ev": "Reset", "text": text})];
+        let res = catch(|| {
+            let mut evs2 = Vec::new();
+            let mut ignored = IgnoredLints::new();
+            let mut wasm = if *s % 3 == 0 { Some(harper_wasm::Linter::new(harper_wasm::Dialect::American)) } else { None };
+            let mut cur = text.clone();
+            for step in 0..4 {
+                let doc = make_doc(&cur, "plain");
+                let all = lg.lint(&doc);
+                let mut vis = all.clone();
+                ignored.remove_ignored(&mut vis, &doc);
+                let wkeys: Option<Vec<(usize, usize, String)>> = wasm.as_mut().map(|w| {
+                    w.lint(cur.clone(), harper_wasm::Language::Plain).iter().map(|x| (x.span().start, x.span().end, x.message())).collect()
+                });
+                let all_j: Vec<Value> = all.iter().map(|l| {
+                    let mut e = lint_entry(l, &doc);
+                    // shown by the JS-facing linter? (it also drops overlapping lints, so only
+                    // "ignored => not shown" is checked for it)
+                    e["wv"] = json!(wkeys.as_ref().map(|k| k.contains(&(l.span.start, l.span.end, l.message.clone()))).unwrap_or(false));
+                    e
+                }).collect();
+                let ev = json!({"ev": "Lints", "text": cur, "all": all_j, "wasm": wkeys.is_some(),
+                    "visible": vis.iter().map(|l| lint_digest(l)).collect::<Vec<_>>()});
+                evs2.push(ev);
+                if all.is_empty() { break; }
+                match step {
+                    0 | 2 => {
+                        // ignore one visible lint
+                        if vis.is_empty() { continue; }
+                        let k = r.below(vis.len());
+                        ignored.ignore_lint(&vis[k], &doc);
+                        if let Some(w) = wasm.as_mut() {
+                            let wl = w.lint(cur.clone(), harper_wasm::Language::Plain);
+                            if let Some(x) = wl.into_iter().find(|x| x.span().start == vis[k].span.start && x.span().end == vis[k].span.end && x.message() == vis[k].message) {
+                                w.ignore_lint(cur.clone(), x);
+                            }
+                        }
+                        evs2.push(json!({"ev": "Ignored", "pid": pid(&vis[k], &doc, false), "lpid": pid(&vis[k], &doc, true), "id": lint_digest(&vis[k]),
+                            "wkey": format!("{}-{}", vis[k].span.end - vis[k].span.start, vis[k].message)}));
+                    }
+                    1 => {
+                        // edit far away from everything that was ignored, or round-trip the list
+                        match r.below(4) {
+                            0 => { cur = format!("{}{}", far_pre[r.below(far_pre.len())], cur); evs2.push(json!({"ev": "Edit", "kind": "prepend"})); }
+                            1 => { cur = format!("{}{}", cur.trim_end(), far_post[r.below(far_post.len())]); evs2.push(json!({"ev": "Edit", "kind": "append"})); }
+                            2 => {
+                                let j = serde_json::to_string(&ignored).unwrap();
+                                ignored = serde_json::from_str(&j).unwrap();
+                                evs2.push(json!({"ev": "ExportImport", "n": j.len()}));
+                            }
+                            _ => {
+                                if let Some(w) = wasm.as_mut() {
+                                    let j = w.export_ignored_lints();
+                                    w.clear_ignored_lints();
+                                    w.import_ignored_lints(j).unwrap();
+                                }
+                                evs2.push(json!({"ev": "ExportImport", "n": 0}));
+                            }
+                        }
+                    }
+                    _ => {}
+                }
+            }
+            evs2
+        });
+        match res {
+            Ok(v) => evs.extend(v),
+            Err(p) => evs.push(json!({"ev": "Panic", "loc": p})),
+        }
+        evs
+    });
+    for v in evs { for e in v { out.emit(&e); } }
+    println!("{}", json!({"events": out.finish()}));
+}
